@@ -487,68 +487,72 @@ def eventlist_search(rounds=3000, seed=0, kinds=("int", "float")):
             return (e.time, -e.priority, e.id)
         nsteps = rng.randrange(2, 14) if r % 3 else rng.randrange(12, 40)
         for step in range(nsteps):
-            if r % 3 == 0 and step < nsteps // 2:
-                op = rng.choice(["add", "add", "add", "add", "remove"])
-            else:
-                op = rng.choice(["add", "add", "add", "remove", "remove", "pop", "peek", "contains", "clear1"])
-            if op == "add":
-                if timekind == "int":
-                    t = rng.randrange(0, 6)
-                elif timekind == "bigint":
-                    t = 2 ** 53 + rng.randrange(0, 6)         # an int clock beyond the exactly representable floats
-                elif timekind == "duration":
-                    from pydsol.core.units import Duration
-                    t = Duration(rng.randrange(0, 6) * 0.5, rng.choice(["s", "min", "ms"]))
+            try:
+                if r % 3 == 0 and step < nsteps // 2:
+                    op = rng.choice(["add", "add", "add", "add", "remove"])
                 else:
-                    t = float(rng.randrange(0, 6)) / 2
-                e = SimEvent(t, tgt, "m", rng.choice([1, 5, 5, 10]))
-                pool.append(e)
-                el.add(e)
-                ref.append(e)
-                hist.append(("add", t, e.priority))
-            elif op == "remove" and pool:
-                e = rng.choice(pool)
-                got = el.remove(e)
-                exp = e in [x for x in ref if x is e]
-                hist.append(("remove", pool.index(e)))
-                if got != exp:
-                    return {"history": hist, "failure": "remove returned %r, expected %r" % (got, exp)}
-                ref = [x for x in ref if x is not e]
-            elif op == "pop":
-                got = el.pop_first()
-                hist.append(("pop",))
-                exp = min(ref, key=key) if ref else None
-                if got is not exp:
-                    return {"history": hist, "failure": "pop_first returned %s, expected %s" % (got, exp)}
-                if exp is not None:
-                    ref = [x for x in ref if x is not exp]
-            elif op == "peek":
-                got = el.peek_first()
-                hist.append(("peek",))
-                exp = min(ref, key=key) if ref else None
-                if got is not exp:
-                    return {"history": hist, "failure": "peek_first returned %s, expected %s" % (got, exp)}
-            elif op == "contains" and pool:
-                e = rng.choice(pool)
-                hist.append(("contains", pool.index(e)))
-                if el.contains(e) != any(x is e for x in ref):
-                    return {"history": hist, "failure": "contains wrong"}
-            elif op == "clear1" and rng.random() < 0.15:
-                el.clear()
-                ref = []
-                hist.append(("clear",))
-            if el.size() != len(ref) or el.is_empty() != (not ref):
-                return {"history": hist, "failure": "size/is_empty wrong: %d vs %d" % (el.size(), len(ref))}
-            # drain a replayed copy
-            import copy
-            cp = EventListHeap()
-            cp._event_list = list(el._event_list)
-            drained = []
-            while not cp.is_empty():
-                drained.append(cp.pop_first())
-            if [key(e) for e in drained] != sorted(key(e) for e in ref):
-                return {"history": hist, "failure": "drain order %s differs from sorted order %s"
-                        % ([key(e)[:2] for e in drained], sorted(key(e)[:2] for e in ref))}
+                    op = rng.choice(["add", "add", "add", "remove", "remove", "pop", "peek", "contains", "clear1"])
+                if op == "add":
+                    if timekind == "int":
+                        t = rng.randrange(0, 6)
+                    elif timekind == "bigint":
+                        t = 2 ** 53 + rng.randrange(0, 6)         # an int clock beyond the exactly representable floats
+                    elif timekind == "duration":
+                        from pydsol.core.units import Duration
+                        t = Duration(rng.randrange(0, 6) * 0.5, rng.choice(["s", "min", "ms"]))
+                    else:
+                        t = float(rng.randrange(0, 6)) / 2
+                    e = SimEvent(t, tgt, "m", rng.choice([1, 5, 5, 10]))
+                    pool.append(e)
+                    el.add(e)
+                    ref.append(e)
+                    hist.append(("add", t, e.priority))
+                elif op == "remove" and pool:
+                    e = rng.choice(pool)
+                    got = el.remove(e)
+                    exp = e in [x for x in ref if x is e]
+                    hist.append(("remove", pool.index(e)))
+                    if got != exp:
+                        return {"history": hist, "failure": "remove returned %r, expected %r" % (got, exp)}
+                    ref = [x for x in ref if x is not e]
+                elif op == "pop":
+                    got = el.pop_first()
+                    hist.append(("pop",))
+                    exp = min(ref, key=key) if ref else None
+                    if got is not exp:
+                        return {"history": hist, "failure": "pop_first returned %s, expected %s" % (got, exp)}
+                    if exp is not None:
+                        ref = [x for x in ref if x is not exp]
+                elif op == "peek":
+                    got = el.peek_first()
+                    hist.append(("peek",))
+                    exp = min(ref, key=key) if ref else None
+                    if got is not exp:
+                        return {"history": hist, "failure": "peek_first returned %s, expected %s" % (got, exp)}
+                elif op == "contains" and pool:
+                    e = rng.choice(pool)
+                    hist.append(("contains", pool.index(e)))
+                    if el.contains(e) != any(x is e for x in ref):
+                        return {"history": hist, "failure": "contains wrong"}
+                elif op == "clear1" and rng.random() < 0.15:
+                    el.clear()
+                    ref = []
+                    hist.append(("clear",))
+                if el.size() != len(ref) or el.is_empty() != (not ref):
+                    return {"history": hist, "failure": "size/is_empty wrong: %d vs %d" % (el.size(), len(ref))}
+                # drain a replayed copy
+                import copy
+                cp = EventListHeap()
+                cp._event_list = list(el._event_list)
+                drained = []
+                while not cp.is_empty():
+                    drained.append(cp.pop_first())
+                if [key(e) for e in drained] != sorted(key(e) for e in ref):
+                    return {"history": hist, "failure": "drain order %s differs from sorted order %s"
+                            % ([key(e)[:2] for e in drained], sorted(key(e)[:2] for e in ref))}
+            except Exception as e:
+                # the list itself failed (not a wrong answer but an exception escaping from one of its operations)
+                return {"history": hist, "failure": "an event-list operation raised %s: %s after the history shown" % (type(e).__name__, e)}
     return None
 
 
